@@ -90,6 +90,7 @@ type Machine struct {
 	ex    *Explorer
 	notes map[string]bool
 
+	cfree          map[*Term]string
 	yieldRequested bool
 	progress       int
 	side  map[string]Value
@@ -192,7 +193,8 @@ func (m *Machine) decide(label string, conds []*Term) int {
 			case "sat":
 				feasible = append(feasible, i)
 			case "unknown":
-				m.res.Unknowns = append(m.res.Unknowns, "branch feasibility unknown: "+label+m.where())
+				// sound over-approximation: an undecided alternative is explored as if feasible
+				m.note("branch feasibility undecided (explored as feasible): " + label + m.where())
 				feasible = append(feasible, i)
 			}
 		}
@@ -598,6 +600,9 @@ func (m *Machine) invokeDeferred(th *Thread, f *Frame, d *deferred) {
 func (m *Machine) jump(f *Frame, to *ssa.BasicBlock) {
 	f.visits[to.Index]++
 	if f.visits[to.Index] > m.Cfg.Unwind {
+		if m.Cfg.CutOnUnwind {
+			panic(pathEnd{kind: "cut", msg: fmt.Sprintf("loop bound %d reached in %s", m.Cfg.Unwind, f.fn)})
+		}
 		panic(pathEnd{kind: "unwind", msg: fmt.Sprintf("loop bound %d exceeded in %s block %d%s", m.Cfg.Unwind, f.fn, to.Index, m.where())})
 	}
 	if f.visits[to.Index] > m.res.MaxUnwind {
